@@ -107,11 +107,16 @@ class Conc:
         self.shape = {}
         self.spell = {}
         self.points = set()
+        self.abs_leaves = []
         if rec.get("family") == "order":
             def walk(nodes):
                 for n in nodes:
+                    if n["k"] == "leaf" and n["ref"] == 0 and not n["href"]:
+                        self.abs_leaves.append(n["id"])
                     if n["k"] == "leaf":
-                        self.shape[n["id"]] = rnd.choice(["rect", "rect", "circle", "point"])
+                        # ("linewh": a line given by its start and a width / height; "use": an instance
+                        # of a 2 x 2 template kept in <defs>)
+                        self.shape[n["id"]] = rnd.choice(["rect", "rect", "circle", "point", "linewh", "use"])
                         self.spell[n["id"]] = rnd.choice(["xy", "xy", "native", "native+dxy", "xy2"])
                         if self.shape[n["id"]] == "point":
                             self.points.add(n["id"])
@@ -141,6 +146,17 @@ class Conc:
         base = f'id="n{i}" class="p{i}"'
         X = 3 * i
         nl = self.nl
+        if sh == "linewh":
+            xs = f'#n{n["ref"]}@r {3 - self.width_of(n["ref"])}' if n["ref"] > 0 else str(X)
+            # the length may be taken from another shape of width 2 (one placed by numbers): the
+            # start is known at once, the end only when that shape is
+            donors = [k for k in self.abs_leaves if k != i and self.shape.get(k) in ("rect", "circle")]
+            w = f"#n{self.rnd.choice(donors)}~w" if (n["ref"] == 0 and donors and self.rnd.random() < 0.6) else "2"
+            return f'<line {base} x1="{xs}" y1="1" width="{w}" height="0" data-v="-"/>{nl}'
+        if sh == "use":
+            self.need_use_template = True
+            pos = f'xy="#n{n["ref"]}|h {3 - self.width_of(n["ref"])}"' if n["ref"] > 0 else f'x="{X}" y="0"'
+            return f'<use {base} href="#usetpl" {pos} data-v="-"/>{nl}'
         if n["ref"] > 0:
             wt = self.width_of(n["ref"])
             if sh == "circle":
@@ -259,7 +275,7 @@ class Conc:
                 # the list, or its first part, may be held by a variable (a list value, the empty
                 # list included: a variable standing in a list contributes its items)
                 k = self.rnd.choice([None, None, len(items), len(items) - 1, 0]) if items else 0
-                if k is not None and k >= 0:
+                if k is not None and k >= 0 and (len(sep.join(items[:k])) <= 64 and not self.strmode):
                     pre = f'<var fl{i}="{sep.join(items[:k])}"/>'
                     data = sep.join([f"$fl{i}"] + items[k:])
                 a = [f'var="{n["lv"]}"', f'data="{data}"']
@@ -305,6 +321,8 @@ class Conc:
     def xml(self, doc=None):
         doc = self.rec["doc"] if doc is None else doc
         body = self.seq(doc)
+        if getattr(self, "need_use_template", False):
+            body = '<defs><rect id="usetpl" width="2" height="2"/></defs>' + self.nl + body
         if self.wrap:
             return f"<svg>{self.lead}{body}</svg>"
         return body
@@ -343,7 +361,7 @@ def project_items(out, strmode, scales=None):
     root = vlib.parse_fragment(out)
     items = []
     for el in vlib.elements(root):
-        if el.name not in ("rect", "circle", "g"):
+        if el.name not in ("rect", "circle", "g", "line", "use"):
             continue
         for c in el.classes():
             if c.startswith("p") and c[1:].isdigit():
@@ -351,6 +369,8 @@ def project_items(out, strmode, scales=None):
                     x = 0
                 elif el.name == "circle":
                     x = vlib.fnum(el.attrs.get("cx", "0")) - vlib.fnum(el.attrs.get("r", "0"))
+                elif el.name == "line":
+                    x = min(vlib.fnum(el.attrs.get("x1", "0")), vlib.fnum(el.attrs.get("x2", "0")))
                 else:
                     x = vlib.fnum(el.attrs.get("x", "0"))
                 items.append({"id": int(c[1:]), "v": decode_value(el.attrs.get("data-v"), strmode, scales.get(int(c[1:]), 1)),
